@@ -5,6 +5,8 @@
 package main
 
 import (
+	"bytes"
+	"compress/gzip"
 	"context"
 	"flag"
 	"fmt"
@@ -34,6 +36,25 @@ func tweak(c *config.Config, lc *config.LMDB) {
 	c.MemoryDecompressedSnapshots = 1
 }
 
+var truncated, garbagePB = func() ([]byte, []byte) {
+	msg := &snapshot.Snapshot{FormatVersion: 3, CompatVersion: 1}
+	d := snapshot.NewDBISize(1 << 16)
+	d.SetName("d")
+	for i := 0; i < 500; i++ {
+		d.Append(snapshot.KV{Key: []byte(fmt.Sprintf("key%05d", i*7919%100000)), Value: []byte(fmt.Sprintf("value-%d-%d", i, i*i)), TimestampNano: uint64(i + 1)})
+	}
+	msg.Databases = append(msg.Databases, d)
+	data, _, err := snapshot.DumpData(msg)
+	if err != nil {
+		panic(err)
+	}
+	var gb bytes.Buffer
+	zw := gzip.NewWriter(&gb)
+	_, _ = zw.Write(bytes.Repeat([]byte{0xff, 0x07, 0x80}, 400))
+	_ = zw.Close()
+	return data[:len(data)/2], gb.Bytes()
+}()
+
 func round(native bool, dur time.Duration) {
 	b := world.NewBucket()
 	ctx, cancel := context.WithCancel(context.Background())
@@ -41,7 +62,7 @@ func round(native bool, dur time.Duration) {
 	var insts []*inst.Inst
 	for _, name := range []string{"a", "b", "c"} {
 		ev := events.New()
-		o := inst.Opt{Native: native, Tweak: tweak,
+		o := inst.Opt{Native: native, Tweak: tweak, DupSortHack: !native,
 			Cleanup:   &config.Cleanup{Enabled: true, Interval: 3 * time.Millisecond, MustKeepInterval: 0, RemoveOldInstancesInterval: 20 * time.Millisecond},
 			Sweeper:   &config.Sweeper{Enabled: true, RetentionDays: 1e-7, Interval: 5 * time.Millisecond, FirstInterval: 3 * time.Millisecond, LockDuration: time.Millisecond, ReleaseDuration: time.Millisecond},
 			SyncerOpt: &syncer.Options{Events: ev}}
@@ -81,6 +102,10 @@ func round(native bool, dur time.Duration) {
 					} else {
 						inst.PlainPut(txn, "d", 0, k, []byte(name))
 					}
+					if !native {
+						// a duplicate-keys DBI (dupsort hack enabled in shadow rounds)
+						inst.PlainPut(txn, "dups", lmdb.DupSort, k, []byte(fmt.Sprintf("%s%d", name, n%7)))
+					}
 					return nil
 				})
 				time.Sleep(time.Millisecond)
@@ -100,7 +125,14 @@ func round(native bool, dur time.Duration) {
 		var prev string
 		for n := 0; ctx.Err() == nil; n++ {
 			name := snapshot.Name(inst.DBName, "x", "GX", time.Now())
-			b.Put(name, []byte("\x1f\x8b not a snapshot"))
+			switch n % 3 {
+			case 0:
+				b.Put(name, []byte("\x1f\x8b not a snapshot")) // fails at the gzip header
+			case 1:
+				b.Put(name, truncated) // a valid gzip stream cut in the middle: fails while decompressing
+			default:
+				b.Put(name, garbagePB) // decompresses, but is not a snapshot message
+			}
 			if prev != "" && n%3 == 0 {
 				b.Remove(prev)
 			}
